@@ -24,6 +24,14 @@ type PropConfig struct {
 	// ForbidLookup: in the named functions, every lookup / range / update on a map of the given
 	// type must provably use a key different from Key (a "reads" obligation; C06: Bcc is never read by the renderer)
 	ForbidLookup []Forbid `json:"forbid_lookup"`
+	// MapOrder: in the named functions, a range over a map whose body modifies one of the heaps
+	// carries the obligation len(map) <= 1 (iteration order must not be observable)
+	MapOrder *MapOrder `json:"map_order"`
+}
+
+type MapOrder struct {
+	Heaps     []string `json:"heaps"`
+	Functions []string `json:"functions"`
 }
 
 type Forbid struct {
@@ -118,6 +126,15 @@ func (c *Ctx) functionSet(prop string, cfg *PropConfig) (fns []*ssa.Function, sw
 	for _, f := range cfg.ForbidLookup {
 		for _, fn := range all {
 			for _, pat := range f.Functions {
+				if globMatch(pat, c.keyOf(fn)) {
+					set[fn] = true
+				}
+			}
+		}
+	}
+	if cfg.MapOrder != nil {
+		for _, fn := range all {
+			for _, pat := range cfg.MapOrder.Functions {
 				if globMatch(pat, c.keyOf(fn)) {
 					set[fn] = true
 				}
@@ -288,7 +305,15 @@ func cmdCheck(args []string) int {
 				}
 			}
 		}
-		g, err := c.genWith(fn, *prop, forb)
+		var oh []string
+		if cfg.MapOrder != nil {
+			for _, pat := range cfg.MapOrder.Functions {
+				if globMatch(pat, c.keyOf(fn)) {
+					oh = cfg.MapOrder.Heaps
+				}
+			}
+		}
+		g, err := c.genWith(fn, *prop, forb, oh)
 		if err != nil {
 			genErrs = append(genErrs, err.Error())
 			continue
